@@ -43,7 +43,7 @@ func init() {
 }
 
 func genReplStream(g *gen, n int, tier string, w *bufio.Writer) {
-	classes := []string{"pollfail", "hbfail", "sameaddr", "mixed", "ackchurn", "topology"}
+	classes := []string{"pollfail", "hbfail", "sameaddr", "mixed", "ackchurn", "topology", "nackchurn"}
 	c0 := g.intn(len(classes))
 	for c := 0; c < n; c++ {
 		cls := classes[(c+c0)%len(classes)]
@@ -120,6 +120,27 @@ func genReplStream(g *gen, n int, tier string, w *bufio.Writer) {
 			fmt.Fprintln(w, "topo h 1")
 			fmt.Fprintln(w, "cutctx x")
 			fmt.Fprintln(w, "watchdrop x 2500")
+		case "nackchurn":
+			// retransmission requests (NACK) arrive for sessions that have just ended, and while sessions come and go: the request
+			// is answered (refused) - a request handler that panics takes the whole primary process down (gRPC does not recover)
+			fmt.Fprintln(w, "stream h addr=h:1 start=1 ack=1")
+			fmt.Fprintf(w, "load %d %d\n", 20+g.intn(60), 10+g.intn(40))
+			fmt.Fprintln(w, "stream t addr=t:1 start=1 ack=0")
+			fmt.Fprintln(w, "nack t 1")
+			fmt.Fprintln(w, "cutctx t")
+			fmt.Fprintf(w, "sleep %d\n", 100+g.intn(100))
+			fmt.Fprintln(w, "nack t 1") // the session is gone
+			fmt.Fprintln(w, "nack nobody 1")
+			for i, m := 0, 6+g.intn(6); i < m; i++ {
+				fmt.Fprintf(w, "stream u%d addr=u%d:1 start=1 ack=0\n", i, i)
+				fmt.Fprintf(w, "nackstorm u%d %d\n", i, 60+g.intn(80))
+				fmt.Fprintf(w, "sleep %d\n", 5+g.intn(30))
+				fmt.Fprintf(w, "cutctx u%d\n", i)
+				fmt.Fprintf(w, "sleep %d\n", 80+g.intn(60))
+			}
+			fmt.Fprintf(w, "load %d %d\n", 20+g.intn(40), 10)
+			fmt.Fprintln(w, "get 0")
+			fmt.Fprintln(w, "caughtup h 6000")
 		case "ackchurn":
 			// several closed log files exist (so that every acknowledgement makes the retention pass look at files), two streams
 			// acknowledge everything they get while a client writes continuously, and further streams come and go (registering and
@@ -402,6 +423,51 @@ func (x *rsRun) step(ws []string) string {
 				}
 			}()
 		}
+		return "ok"
+	case "nack", "nackstorm": // nack <id> <from> | nackstorm <id> <ms>: retransmission requests for that stream's session (also after it ended)
+		sid := "no-such-session"
+		if s := x.streams[ws[1]]; s != nil {
+			sid = s.session
+		}
+		call := func() (res string) {
+			defer func() {
+				if p := recover(); p != nil {
+					res = "panic:" + strings.ReplaceAll(fmt.Sprint(p), " ", "_")
+				}
+			}()
+			nctx := metadata.NewIncomingContext(context.Background(), metadata.Pairs("session-id", sid))
+			resp, err := x.p.NegativeAcknowledge(nctx, &rproto.Nack{MissingFromSequence: 1})
+			switch {
+			case err != nil:
+				return "err"
+			case resp != nil && resp.Success:
+				return "resent"
+			}
+			return "refused"
+		}
+		if ws[0] == "nack" {
+			out := make(chan string, 1)
+			go func() { out <- call() }()
+			select {
+			case r := <-out:
+				if strings.HasPrefix(r, "panic") {
+					x.bad = append(x.bad, "nack-handler-panicked "+r)
+				}
+				return "nack " + r
+			case <-time.After(patience(5 * time.Second)):
+				x.bad = append(x.bad, "blocked op=nack")
+				return "blocked op=nack"
+			}
+		}
+		ms, _ := strconv.Atoi(ws[2])
+		go func() {
+			for dl := time.Now().Add(time.Duration(ms) * time.Millisecond); time.Now().Before(dl); {
+				if r := call(); strings.HasPrefix(r, "panic") {
+					x.note("nack-handler-panicked " + r)
+					return
+				}
+			}
+		}()
 		return "ok"
 	case "setsend":
 		s := x.streams[ws[1]]
